@@ -105,7 +105,7 @@ def build(t, mod="m"):
     a_var = shim.var("a", mt(), fullname=f"{mq}.K.a")
     a = shim.assignment([shim.name_expr("a", "a", node=a_var)], unanalyzed_type=unbound(t))
     b_var = shim.var("b", mt(), fullname=f"{mq}.K.b")
-    b = shim.assignment([shim.member_expr("b", shim.name_expr("self", "self"), node=b_var)], unanalyzed_type=unbound(t))
+    b = shim.assignment([shim.member_expr("b", shim.self_expr(), node=b_var)], unanalyzed_type=unbound(t))
     init = shim.func_def("__init__", f"{mq}.K.__init__", [shim.argument("self", shim.ArgKind.ARG_POS, is_self=True),
                                                           shim.argument("q", shim.ArgKind.ARG_POS, annotation=mt())],
                          ret=shim.none_type(), body=[b])
